@@ -550,7 +550,15 @@ def run_case(c):
                     exp_c = sid(snap(ccl, 'cqm'))
                     eraised = True
                 try:
-                    cqm.add_constraint_from_model(mod, '<=', 1, label=lbl, copy=cp)
+                    # every public entry point that has a `copy` parameter (Gen_Copy.v lists them)
+                    api = r.choice(['add_constraint_from_model', 'add_constraint_from_comparison', 'add_constraint'])
+                    feats["op"] = "%s(copy=%s)" % (api, cp)
+                    if api == 'add_constraint_from_model':
+                        cqm.add_constraint_from_model(mod, '<=', 1, label=lbl, copy=cp)
+                    elif api == 'add_constraint_from_comparison':
+                        cqm.add_constraint_from_comparison(mod <= 1, label=lbl, copy=cp)
+                    else:
+                        cqm.add_constraint(mod <= 1, label=lbl, copy=cp)
                     raised = False
                 except ValueError:
                     raised = True
